@@ -53,7 +53,8 @@ def u_b_sorting(ctx):
                 return barr.mk(numpy.array([tot], dtype=object), "float64"), numpy.zeros(0), numpy.zeros(0)
         prob = Prob()
         del sols[:]
-        out = f(object(), prob, None)
+        from pybrops.opt.algo.SortingSubsetOptimizationAlgorithm import SortingSubsetOptimizationAlgorithm as _Real
+        out = f(loopcut.stub_of(_Real), prob, None)
         kw = out.kw
         decn = [int(v) for v in numpy.asarray(kw["soln_decn"]).reshape(-1)]
         e.prove(tag + ":one-solution-of-requested-size", len(decn) == k and kw["nsoln"] == 1)
@@ -87,11 +88,26 @@ def u_l_round(ctx):
 HC = "pybrops/opt/algo/SteepestDescentSubsetHillClimber.py"
 
 
+SHC = "pybrops/opt/algo/SortingSteepestDescentSubsetHillClimber.py"
+
+
 @unit(P, "B[steepest-descent subset hill-climber: stops only where no single exchange improves (cv, then score); truthful values]", "B",
       bounded=True, targets=[HC + ":SteepestDescentSubsetHillClimber.minimize"],
       note="bounded(shape): candidate sets of <= 4 labels (thorough 5), every subset size, every starting subset; the objective value "
            "and the constraint violation of EVERY subset are independent symbolic reals (arbitrary, non-separable problems, ties included)")
 def u_b_hillclimb(ctx):
+    _hillclimb(ctx, HC + ":SteepestDescentSubsetHillClimber.minimize", False)
+
+
+@unit(P, "B[sorting steepest-descent hill-climber (starts from the k best single members): same stopping rule; truthful values]", "B",
+      bounded=True, targets=[SHC + ":SortingSteepestDescentSubsetHillClimber.minimize"],
+      note="bounded(shape): candidate sets of <= 4 labels, every subset size; the objective value and constraint violation of every "
+           "single member and of every subset of the requested size are independent symbolic reals")
+def u_b_sorting_hillclimb(ctx):
+    _hillclimb(ctx, SHC + ":SortingSteepestDescentSubsetHillClimber.minimize", True)
+
+
+def _hillclimb(ctx, target, sorting):
     import time
     t_unit = time.time()
     sols = []
@@ -100,7 +116,7 @@ def u_b_hillclimb(ctx):
         def __init__(self, **kw):
             self.kw = kw
             sols.append(self)
-    f = loopcut.Extracted(HC + ":SteepestDescentSubsetHillClimber.minimize", overrides={
+    f = loopcut.Extracted(target, overrides={
         "check_is_SubsetProblem": lambda *a: None, "check_SubsetProblem_is_single_objective": lambda *a: None,
         "SubsetSolution": Soln})
 
@@ -108,10 +124,13 @@ def u_b_hillclimb(ctx):
         n, k, start, constrained = shape
         labels = numpy.array([10 + 3 * i for i in range(n)])
         subsets = list(itertools.combinations([int(l) for l in labels], k))
-        val = {s: sym.fresh_real("f_" + "_".join(map(str, s))) for s in subsets}
-        cv = {s: (sym.fresh_real("cv_" + "_".join(map(str, s))) if constrained else 0.0) for s in subsets}
+        keys = list(subsets)
+        if sorting and k != 1:
+            keys += [(int(l),) for l in labels]          # the sorting variant first evaluates every single member
+        val = {s: sym.fresh_real("f_" + "_".join(map(str, s))) for s in keys}
+        cv = {s: (sym.fresh_real("cv_" + "_".join(map(str, s))) if constrained else 0.0) for s in keys}
         if constrained:
-            for s in subsets:
+            for s in keys:
                 e.assume(cv[s].t >= 0)
         calls = []
 
@@ -127,9 +146,9 @@ def u_b_hillclimb(ctx):
                 calls.append(key)
                 if time.time() - t_unit > (150 if ctx.tier == "quick" else 900):
                     raise sym.Unsupported("hill-climber unit exceeded its time budget (path explosion on this source)")
-                if len(calls) > (len(subsets) + 2) * (k * (n - k) + 1) + 2:
+                if len(calls) > (len(subsets) + 2) * (k * (n - k) + 1) + 2 + (n if sorting else 0):
                     # every accepted exchange strictly improves (cv, score), so a descent visits each subset at most once
-                    raise RuntimeError("hill-climber did not stop within %d evaluations (each subset can be accepted at most once)" % len(calls))
+                    raise sym.ContractViolation("ContractViolation: hill-climber did not stop within %d evaluations (each subset can be accepted at most once)" % len(calls))
                 return (barr.mk(numpy.array([val[key]], dtype=object), "float64"),
                         barr.mk(numpy.array([cv[key]], dtype=object), "float64"), numpy.zeros(0))
 
@@ -137,12 +156,13 @@ def u_b_hillclimb(ctx):
             def choice(self, a, size=None, replace=True, p=None):
                 return numpy.array(start)
 
-        class Me:
-            rng = Rng()
+        import importlib
+        _rel, _q = target.split(":")
+        _Real = getattr(importlib.import_module(_rel[:-3].replace("/", ".")), _q.split(".")[0])
         prob = Prob()
         del sols[:]
         misc = {}
-        out = f(Me(), prob, misc)
+        out = f(loopcut.stub_of(_Real, rng=Rng()), prob, misc)
         kw = out.kw
         decn = [int(v) for v in numpy.asarray(kw["soln_decn"]).reshape(-1)]
         key = tuple(sorted(decn))
@@ -158,8 +178,9 @@ def u_b_hillclimb(ctx):
                 nb = tuple(sorted([v for v in decn if v != a_] + [b_]))
                 better.append(z3.Or(R(cv[nb]) < R(cv[key]), z3.And(R(cv[nb]) == R(cv[key]), R(val[nb]) < R(val[key]))))
         e.prove(tag + ":no-single-exchange-improves-the-returned-decision", z3.Not(z3.Or(*better)) if better else True)
-        e.prove(tag + ":never-worse-than-the-start", z3.Or(R(cv[key]) < R(cv[tuple(sorted(start))]),
-                                                            z3.And(R(cv[key]) == R(cv[tuple(sorted(start))]), R(val[key]) <= R(val[tuple(sorted(start))]))))
+        if not sorting:
+            e.prove(tag + ":never-worse-than-the-start", z3.Or(R(cv[key]) < R(cv[tuple(sorted(start))]),
+                                                                z3.And(R(cv[key]) == R(cv[tuple(sorted(start))]), R(val[key]) <= R(val[tuple(sorted(start))]))))
         e.prove(tag + ":problem-not-modified", numpy.array_equal(prob.decn_space, labels) and prob.ndecn == k)
         e.prove(tag + ":miscout-scores", R(misc["gbest_score"]) == R(val[key]) and True)
         return "ok"
@@ -169,10 +190,14 @@ def u_b_hillclimb(ctx):
         for k in range(1, n + 1):
             labs = [10 + 3 * i for i in range(n)]
             starts = list(itertools.combinations(labs, k))
-            if ctx.tier == "quick" or n >= 5:
+            if ctx.tier == "quick" or n >= 5 or sorting:
                 starts = starts[:1] + starts[-1:] if len(starts) > 1 else starts
+            if sorting:
+                starts = starts[:1]                 # the start is computed by the algorithm itself (no generator involved)
+            if sorting and n >= (4 if ctx.tier == "quick" else 5):
+                continue                            # the initial argsort alone forks n! ways
             for st in starts:
                 shapes.append((n, k, tuple(reversed(st)), False))
             if n <= 3 or (ctx.tier == "thorough" and n <= 4):
                 shapes.append((n, k, tuple(starts[0]), True))
-    modeb.run_shapes(ctx, "hillclimb", shapes, body, max_paths=20000)
+    modeb.run_shapes(ctx, "sorting-hillclimb" if sorting else "hillclimb", shapes, body, max_paths=20000)
